@@ -256,7 +256,8 @@ ShapeClass(out, x) ==   \* "" when out is one item of x's type, precision and of
   ELSE IF Len(out.items) = 0 THEN "empty"
   ELSE IF Len(out.items) > 1 THEN "multi"
   ELSE LET it == out.items[1] IN
-       IF it.t # x.t THEN "type"
+       IF it.t = "unk" THEN "unk"            \* a value the projection cannot read (e.g. year 10000)
+       ELSE IF it.t # x.t THEN "type"
        ELSE IF it.p # x.p THEN "prec"
        ELSE IF x.t = "dt" /\ (it.tz # x.tz \/ it.off # x.off) THEN "offset"
        ELSE ""
